@@ -4,5 +4,10 @@ CHECKS = {
   'design_ref': 'DESIGN.md 5/C10',
   'note': 'Bounds: histories <= 3 (thorough 4) per kind pair, single inheritance for user classes, 3 abstract keys per table with every other entry checked as unchanged frame. Trusted: TLC, the alpha abstraction in harness/props/c10.py.',
   'technique': 'TLA+ model (Registry.tla) checked by TLC, MBT replay of every reachable state into the live classes'},
+ 'C14': {
+  'text': 'Bounded-exhaustive model checking of spec/MapMeaning.tla: every reachable state is a document (node heap with sharing, merge keys, merge lists, self-merge, set/omap/pairs tags, duplicate/equal/unhashable keys); TLC checks that the implementation-shaped construction (in-place flatten_mapping, two-phase queue order) agrees with the declarative meaning of the property on every document, and every document is printed and loaded by the real loaders (Python and LibYAML) and compared with the declarative meaning.',
+  'design_ref': 'DESIGN.md 5/C14',
+  'note': 'Bounds: <= 3 collection nodes (4 for merge-only alphabets; thorough 5), <= 2 entries per mapping. Keys compared modulo Python equality; key order only checked where the mapping has no merge key (as the statement says). Trusted: TLC, the flow-style printer and matcher in harness/props/c14.py.',
+  'technique': 'TLA+ model (MapMeaning.tla: H meaning vs L in-place flattening) checked by TLC, every state replayed as a document through the real loaders'},
 }
 NOT_YET = {}
